@@ -37,10 +37,15 @@ def _cases(draw, tier):
     mode = 'cbc' if pct(draw) < 40 else ('both' if tier == 'thorough' and pct(draw) < 15
                                          else 'eb')
     salt = draw(strategies.salts)
-    shape = draw(st.sampled_from(['mix', 'mix', 'high_targets', 'many_criteria', 'lecturer_mult']))
+    shape = draw(st.sampled_from(['mix', 'mix', 'high_targets', 'many_criteria', 'lecturer_mult',
+                                  'tied_quota_stab']))
     kw = {}
     if shape == 'high_targets':
         kw['cls'] = draw(st.sampled_from(['more_lecturers', 'generic', 'shared_tight']))
+    if shape == 'tied_quota_stab':
+        # ties of three and more x lower quotas x stability: feasibility hangs on one student
+        # sitting on a late member of a tie
+        kw = dict(cls='tied_lower_quotas', two_sided=True, min_len=3)
     inst = draw(strategies.instances(strategies.SIZES[tier], **kw))
     if shape == 'high_targets' and inst['na'] == 3:
         inst['lt'] = list(inst['luq'])
@@ -53,6 +58,8 @@ def _cases(draw, tier):
         for c in opts['crit']:
             if c[0] in ('mincost', 'minsqcost', 'mincostlsb') and len(c[2]) < 2:
                 c[2] = [draw(st.sampled_from([0, 1, 2])), draw(st.sampled_from([1, 2, 3]))]
+    elif shape == 'tied_quota_stab':
+        opts = draw(strategies.option_sets(inst, max_crit=2, twopl=True, stab=True))
     else:
         opts = draw(strategies.option_sets(inst, max_crit=4))
     choices = draw(strategies.choice_lists) if mode != 'cbc' else []
